@@ -866,7 +866,7 @@ func (p *Prog) wholeItems() []Ob {
 				if !ok || q.Op != token.QUO || !isSizeCall(q.Y) {
 					continue
 				}
-				ob := Ob{Rule: "R10", Inst: "g:whole-items:" + funcLabel(fn), Props: []string{"C05", "C11", "C07"}, Pos: p.at(ms), Func: funcLabel(fn), Nontrivial: true}
+				ob := Ob{Rule: "R10", Inst: "g:whole-items:" + funcLabel(fn), Props: []string{"C05", "C11", "C07", "C02"}, Pos: p.at(ms), Func: funcLabel(fn), Nontrivial: true}
 				found := false
 				for _, hb := range fn.Blocks {
 					iff, ok := terminator(hb).(*ssa.If)
@@ -4643,6 +4643,9 @@ func (p *Prog) recoverWritesKnownVersion() []Ob {
 					continue
 				}
 				ob := Ob{Rule: "R11", Inst: "L10b:" + funcLabel(fn) + ":known-version", Props: []string{"C07", "C05"}, Pos: p.at(w), Func: funcLabel(fn), Nontrivial: true}
+				if fn.Name() == "Migrate" {
+					ob.Props = []string{"C07", "C05", "C17"}
+				}
 				guarded := false
 				for _, hb := range fn.Blocks {
 					iff, ok := terminator(hb).(*ssa.If)
@@ -6116,7 +6119,7 @@ func (p *Prog) nothingBeforeTheLock() []Ob {
 func (p *Prog) everyFoundSegmentIsOpened() []Ob {
 	r := p.R
 	open := r.Open
-	ob := Ob{Rule: "R13", Inst: "c:every-found-segment-is-opened", Props: []string{"C19", "C02"}, Pos: "-", Func: funcLabel(open), Nontrivial: true}
+	ob := Ob{Rule: "R13", Inst: "c:every-found-segment-is-opened", Props: []string{"C19", "C02", "C03"}, Pos: "-", Func: funcLabel(open), Nontrivial: true}
 	if open == nil {
 		ob.Status, ob.Msg = Undecided, "Open not found"
 		return []Ob{ob}
